@@ -114,6 +114,9 @@ type FnGen struct {
 	ownAllocs map[string][]ownAlloc // type name -> objects allocated here (invariant not yet assumed)
 	dirty     map[string][]Val    // type name -> pre-existing objects whose invariant fields were written
 
+	locals    map[string]Val // source-level locals (from DebugRef), latest value seen
+	localDefs map[string][]localDef
+	curIdx    int
 	obNames   map[string]int
 	cellVars  map[string]Val // source variables that live in heap cells (captured by closures)
 	allAllocs []string
@@ -746,4 +749,54 @@ func (g *FnGen) cover(name, guard string) {
 	c := &Cover{Name: name, item: len(r.items)}
 	r.items = append(r.items, Item{Kind: itCover, Guard: guard, Origin: name})
 	r.covers = append(r.covers, c)
+}
+
+type localDef struct {
+	block *ssa.BasicBlock
+	idx   int
+	val   Val
+}
+
+func domDepth(b *ssa.BasicBlock) int {
+	d := 0
+	for x := b.Idom(); x != nil; x = x.Idom() {
+		d++
+	}
+	return d
+}
+
+// localAt returns the value a source-level local has at the current program point: the nearest
+// DebugRef that dominates it.
+func (g *FnGen) localAt(name string) (Val, bool) {
+	var best *localDef
+	bestDepth := -1
+	for i := range g.localDefs[name] {
+		d := &g.localDefs[name][i]
+		if d.block == g.curBlock {
+			if d.idx >= g.curIdx {
+				continue
+			}
+		} else if g.curBlock == nil || !d.block.Dominates(g.curBlock) {
+			continue
+		}
+		dd := domDepth(d.block)
+		if dd > bestDepth || (dd == bestDepth && best != nil && d.idx > best.idx) {
+			best, bestDepth = d, dd
+		}
+	}
+	if best == nil {
+		return Val{}, false
+	}
+	return best.val, true
+}
+
+// localsNow is the environment of source-level locals at the current program point.
+func (g *FnGen) localsNow() map[string]Val {
+	out := map[string]Val{}
+	for name := range g.localDefs {
+		if v, ok := g.localAt(name); ok {
+			out[name] = v
+		}
+	}
+	return out
 }
